@@ -103,8 +103,9 @@ type cont interface {
 	slice(a, b int) (cont, error)
 	appendScalar(x, how int) (cont, error)
 	appendVector(w []int, how int) (cont, error)
-	appendObj(w cont) (cont, error)                            // v.AppendVector(w), w a vector with its own history
-	viewWalk(r0, r1, c0, c1, fi, fj, how int) ([][]int, error) // matrix views only
+	appendObj(w cont) (cont, error)                        // v.AppendVector(w), w a vector with its own history
+	viewWalk(word []int, fi, fj, how int) ([][]int, error) // matrix views only (word: 5 ints per step)
+	viewWrite(word []int, i, j, x, how int) error
 	arith(name string, w []int, x int, operand string) error
 	iterFrom(from int, how int) (iter, error)
 	walk(how int) ([][]int, error)
@@ -290,9 +291,8 @@ func (c *vecCont) appendObj(w cont) (cont, error) {
 	}
 	return &vecCont{c.t, c.v.AppendVector(o.v), c.concrete}, nil
 }
-func (c *vecCont) viewWalk(r0, r1, c0, c1, fi, fj, how int) ([][]int, error) {
-	return nil, errUnsupported
-}
+func (c *vecCont) viewWalk(word []int, fi, fj, how int) ([][]int, error) { return nil, errUnsupported }
+func (c *vecCont) viewWrite(word []int, i, j, x, how int) error          { return errUnsupported }
 
 var concreteName = map[string]string{"vaddv": "VADDV", "vsubv": "VSUBV", "vmulv": "VMULV", "set": "SET",
 	"vmuls": "VMULS", "vadds": "VADDS", "vsubs": "VSUBS", "vdivs": "VDIVS", "vsubself": "VSUBV", "vmulself": "VMULV"}
@@ -624,21 +624,29 @@ func (c *matCont) appendVector(w []int, h int) (cont, error) { return nil, errUn
 
 func (c *matCont) appendObj(w cont) (cont, error) { return nil, errUnsupported }
 
-// viewWalk iterates the view Slice(r0, r1, c0, c1) completely, starting at view position (fi, fj), and
-// returns <<i, j, value>> in view coordinates; the elements of the view are read as well (appended as
-// rows <<-1, i*vc+j, value>> so that the caller can compare them with the content restricted to the window).
-func (c *matCont) viewWalk(r0, r1, c0, c1, fi, fj, how int) ([][]int, error) {
-	var view ConstMatrix
-	var mview Matrix
-	if how%2 == 0 {
-		mview = c.m.Slice(r0, r1, c0, c1)
-		view = mview
-	} else {
-		view = c.m.ConstSlice(r0, r1, c0, c1)
+// view applies the steps of a word (5 ints per step: 0 r0 r1 c0 c1 = Slice, 1 . . . . = T) to the matrix.
+func (c *matCont) view(word []int, constLast bool) (ConstMatrix, Matrix) {
+	var m Matrix = c.m
+	for k := 0; k+5 <= len(word); k += 5 {
+		last := k+10 > len(word)
+		switch {
+		case word[k] == 1:
+			m = m.T()
+		case last && constLast:
+			return m.ConstSlice(word[k+1], word[k+2], word[k+3], word[k+4]), nil
+		default:
+			m = m.Slice(word[k+1], word[k+2], word[k+3], word[k+4])
+		}
 	}
-	if a, b := view.Dims(); a != r1-r0 || b != c1-c0 {
-		panic(fmt.Sprintf("view has dimensions %dx%d", a, b))
-	}
+	return m, m
+}
+
+// viewWalk iterates the view denoted by the word completely (fi < 0: Iterator(), else IteratorFrom(fi, fj))
+// and returns <<i, j, value>> in view coordinates, followed by <<-2, rows, cols>> (Dims of the view) and by
+// the elements read through the view, row-major, as rows <<-1, q, value>>.
+func (c *matCont) viewWalk(word []int, fi, fj, how int) ([][]int, error) {
+	view, mview := c.view(word, how%2 == 1)
+	vr, vc := view.Dims()
 	r := [][]int{}
 	add := func(i, j int, s ConstScalar) {
 		if s == nil || (reflect.ValueOf(s).Kind() == reflect.Ptr && reflect.ValueOf(s).IsNil()) {
@@ -650,7 +658,7 @@ func (c *matCont) viewWalk(r0, r1, c0, c1, fi, fj, how int) ([][]int, error) {
 		}
 	}
 	switch {
-	case mview != nil && (how/2)%2 == 0 && fi == 0 && fj == 0:
+	case mview != nil && (how/2)%2 == 0 && fi < 0:
 		for it := mview.Iterator(); it.Ok(); it.Next() {
 			i, j := it.Index()
 			add(i, j, it.Get())
@@ -660,7 +668,7 @@ func (c *matCont) viewWalk(r0, r1, c0, c1, fi, fj, how int) ([][]int, error) {
 			i, j := it.Index()
 			add(i, j, it.Get())
 		}
-	case fi == 0 && fj == 0:
+	case fi < 0:
 		for it := view.ConstIterator(); it.Ok(); it.Next() {
 			i, j := it.Index()
 			add(i, j, it.GetConst())
@@ -671,8 +679,8 @@ func (c *matCont) viewWalk(r0, r1, c0, c1, fi, fj, how int) ([][]int, error) {
 			add(i, j, it.GetConst())
 		}
 	}
-	vc := c1 - c0
-	for i := 0; i < r1-r0; i++ {
+	r = append(r, []int{-2, vr, vc})
+	for i := 0; i < vr; i++ {
 		for j := 0; j < vc; j++ {
 			x, ok := toInt(view.Float64At(i, j))
 			if !ok {
@@ -684,7 +692,21 @@ func (c *matCont) viewWalk(r0, r1, c0, c1, fi, fj, how int) ([][]int, error) {
 			r = append(r, []int{-1, i*vc + j, x})
 		}
 	}
+	if (how/4)%2 == 1 { // printing and resetting nothing must work on every view, empty ones included
+		_ = fmt.Sprint(view)
+	}
 	return r, nil
+}
+
+func (c *matCont) viewWrite(word []int, i, j, x, how int) error {
+	_, mview := c.view(word, false)
+	s := mview.At(i, j)
+	if how%2 == 0 {
+		s.SetFloat64(float64(x))
+	} else {
+		s.Set(NewScalar(c.t, float64(x)))
+	}
+	return nil
 }
 
 func (c *matCont) mk(w []int) Matrix {
@@ -743,7 +765,10 @@ func (i matIter) Next()    { i.it.Next() }
 func (i matIter) pos() int { r, c := i.it.Index(); return r*i.cols + c }
 
 func (c *matCont) iterFrom(from, how int) (iter, error) {
-	r, k := c.rc(from)
+	r, k := 0, 0
+	if from != 0 {
+		r, k = c.rc(from)
+	}
 	switch {
 	case from == 0 && how%2 == 0:
 		return matIter{c.m.ConstIterator(), c.cols}, nil
